@@ -851,7 +851,7 @@ def store_subscript(ex, obj, idx, v):
 # attributes of values
 # ------------------------------------------------------------------------------------------------
 
-_TENSOR_METHODS = {'resolve_conj', 'topk', 'clone', 'detach', 'to', 'cpu', 'cuda', 'numpy', 'numel', 'permute', 'requires_grad_', 't', 'conj',
+_TENSOR_METHODS = {'is_floating_point', 'is_complex', 'resolve_conj', 'topk', 'clone', 'detach', 'to', 'cpu', 'cuda', 'numpy', 'numel', 'permute', 'requires_grad_', 't', 'conj',
                    'backward', 'retain_grad', 'reshape', 'sum', 'item', 'size', 'dim', 'squeeze', 'unsqueeze', 'norm',
                    'copy', 'flatten', 'transpose', 'contiguous', 'double', 'float', 'view', 'abs', 'tolist', 'type', 'index'}
 _LIST_METHODS = {'append', 'copy', 'index', 'count', 'extend', 'insert', 'pop', 'reverse', 'sort', 'remove', 'clear'}
@@ -1353,6 +1353,10 @@ def tensor_method(ex, t, name, args, kwargs):
         return _topk(ex, t, args, kwargs)
     if name == 'conj':
         return T.conj(t)
+    if name == 'is_floating_point':
+        return t.dtype in T.FLOATS
+    if name == 'is_complex':
+        return t.dtype in T.COMPLEX
     if name == 'resolve_conj':
         if not getattr(t, 'conj_bit', False):
             return t
